@@ -606,9 +606,12 @@ func genC18(t *rapid.T) any {
 		var args []*sq.E
 		for i := 0; i < k; i++ {
 			l := fmt.Sprintf("a%d", i)
-			var v any = rapid.SampledFrom([]any{"x", 1.0, true, "base64", "string"}).Draw(t, l)
+			var v any = rapid.SampledFrom([]any{"x", 1.0, true, "base64", "string", nil}).Draw(t, l)
 			if i == 0 && (fn == "first" || fn == "last" || fn == "elementat" || fn == "unwind") {
 				v = []any{1.0, 2.0}
+				if rapid.IntRange(0, 2).Draw(t, l+".nullarr") == 0 {
+					v = nil // a NULL first argument does not excuse a wrong argument count
+				}
 			}
 			args = append(args, b.arg(v, l))
 		}
